@@ -128,6 +128,7 @@ struct ClientState
    std::map<std::string, std::string> mirror;    // canonical path -> payload text
    PathMatcher subs;                             // the client's own idea of its subscriptions (real patterns)
    std::set<std::string> params;                 // the SUBSCRIBE: parameter names it holds on the server (as it spelled them)
+   std::map<std::string, std::string> subflt;    // per subscription entry (adjusted path): the filter text it subscribed with
    bool tainted;                                 // the oracle no longer applies (quiet flags / explicit GETDATA were used)
 };
 
@@ -168,11 +169,20 @@ static MessageRef BuildCommand(Ctx & c, int K, const std::string & code, const s
          if ((fs.size() > 0)&&(fs[0] == "1")) {(void) m()->AddBool(PR_NAME_REMOVE_QUIETLY, true); c.quietUsed = true;}
          at = 1;
       }
-      else c.cs[K].tainted = true;
       std::vector<std::string> pats = (fs.size() > at && !fs[at].empty()) ? Split(fs[at], '&') : std::vector<std::string>();
+      // an explicit GETDATA whose keys are all subscriptions the sender holds (same path, same filter, distinct) leaves its
+      // mirror exact (cmd_covered / getdata_covered_J); any other one adds nodes its subscriptions do not cover
+      std::set<std::string> seenKeys;
       for (size_t i=0; i<pats.size(); i++)
       {
          std::string pat, flt; SplitSub(pats[i], pat, flt);
+         if (code == "g")
+         {
+            String adj(RealPattern(w, pat).c_str()); c.cs[K].subs.AdjustStringPrefix(adj, "*/*");
+            std::map<std::string,std::string>::const_iterator it = c.cs[K].subflt.find(adj());
+            if ((pat.empty())||(seenKeys.count(adj()) > 0)||(it == c.cs[K].subflt.end())||(it->second != flt)) c.cs[K].tainted = true;
+            seenKeys.insert(adj());
+         }
          (void) m()->AddString(PR_NAME_KEYS, RealPattern(w, pat).c_str());
          MessageRef fm = MkMsg(0);   // a dummy (empty) filter Message stops the "bleed-down" of the previous filter
          ConstQueryFilterRef qf = MkFilter(flt);
@@ -198,6 +208,7 @@ static MessageRef BuildCommand(Ctx & c, int K, const std::string & code, const s
               else (void) m()->AddBool(fn.c_str(), true);
          (void) c.cs[K].subs.PutPathFromString(rp.c_str(), qf, "*/*");
          (void) c.cs[K].params.insert(rp);
+         {String adj(rp.c_str()); c.cs[K].subs.AdjustStringPrefix(adj, "*/*"); c.cs[K].subflt[adj()] = flt;}
       }
       return m;
    }
@@ -224,6 +235,7 @@ static MessageRef BuildCommand(Ctx & c, int K, const std::string & code, const s
             String adj(rp.c_str());
             c.cs[K].subs.AdjustStringPrefix(adj, "*/*");
             (void) c.cs[K].subs.RemovePathString(adj);
+            (void) c.cs[K].subflt.erase(adj());
          }
       }
       return m;
